@@ -62,7 +62,38 @@ def same_target_lemma(E, g, tr, obs, key2, args_t):
     return tr2
 
 
-@task("vi.elbo", props=["C30"], functions=FUNCS)
+def _apps(term, fname):
+    """all (distinct) applications of the uninterpreted function `fname` in a term, nested ones included"""
+    import z3
+    found, seen = [], set()
+
+    def walk(e):
+        if e.get_id() in seen:
+            return
+        seen.add(e.get_id())
+        if z3.is_app(e) and e.decl().name() == fname and not any(e.eq(x) for x in found):
+            found.append(e)
+        for ch in e.children():
+            walk(ch)
+    walk(term)
+    return found
+
+
+def weight_keys(E, wterm, what):
+    """the keys a re-targeted importance weight was computed with, READ OFF the weight term (the contracts do not say how the
+    algorithms derive them):  (key of the target's importance run, key of the proposal's draw, key of the re-targeting run)"""
+    import z3
+    t = z3.simplify(wterm)
+    ws = _apps(t, "gf_generate_w")
+    outer = [a for a in ws if _apps(a.arg(2), "gf_generate_tr")]
+    inner = [a for a in ws if not _apps(a.arg(2), "gf_generate_tr")]
+    draws = _apps(t, "q_random_weighted_choice")
+    E.require(f"C30.{what}.weight_is_one_proposal_draw_one_importance_run_and_its_retargeting",
+              len(outer) == 1 and len(inner) == 1 and len(draws) == 1, found=(len(outer), len(inner), len(draws)))
+    return inner[0].arg(1), draws[0].arg(1), outer[0].arg(1)
+
+
+@task("vi.elbo", props=["C30", "C04"], functions=FUNCS)
 def t_elbo(E):
     z3, T = E.z3, E.I.T
     theta = E.real("theta")             # the loss function's own parameter (what ADEV differentiates with respect to)
@@ -72,17 +103,21 @@ def t_elbo(E):
     guide = E.opaque("guide", "SampleDistribution")
     k = key(E)
     ge = E.I.call(E.call(VI + ":ELBO", guide, make_target), [k, (theta_outer,)], {})
-    split = E.ctx.fn("split", U, z3.IntSort(), z3.IntSort(), U)
-    # keys: estimate_normalizing_constant splits, ChangeTarget.run_smc passes its key to prev.run_smc, which splits again
-    k_ct = split(k.t, 2, 1)
-    k_imp0, k_imp1 = split(k_ct, 2, 0), split(k_ct, 2, 1)
+    # keys: read off the single re-targeted importance weight the loss is computed from (however the algorithms derive them)
+    from pyvc.interp_ops import zreal as _zr
+    from theory import keys as KY
+    lse_terms = getattr(E.ctx, "lse", [])
+    E.require("C30.ELBO.loss_is_computed_from_one_weight_vector", len(lse_terms) == 1 and len(losses) == 1)
+    k_imp0, k_imp1, k_ret = weight_keys(E, _zr(lse_terms[0][1].at(z3.IntVal(0))), "ELBO")
+    E.prove("C04.ELBO.guide_draw_and_model_importance_use_independent_keys_derived_from_the_given_key", z3.And(
+        KY.independent(E.I, k_imp0, k_imp1), KY.derived_from(E.I, k_imp0, k.t), KY.derived_from(E.I, k_imp1, k.t)), also=["C30"])
     target = E.new(SP + ":Target", p=g, args=(theta,), constraint=obs)
     tu = E.I.to_u(target)
     choice, lq = qc(guide.t, k_imp1, tu), qw(guide.t, k_imp1, tu)
     merged = T.chm_or(obs.t, choice)
     args_t = E.I.to_u((theta,))
     tr = T.gen_tr(g.t, k_imp0, merged, args_t)
-    same_target_lemma(E, g, tr, obs, split(k_ct, 1, 0), args_t)
+    same_target_lemma(E, g, tr, obs, k_ret, args_t)
     E.cover("vi.elbo.reached")
     E.prove("C30.ELBO.loss_recorded", len(losses) == 1)
     E.prove("C30.ELBO.loss_is_minus_log_joint_minus_log_guide_density_at_a_guide_sample",
@@ -90,7 +125,7 @@ def t_elbo(E):
     E.refutable("vi.elbo", E.eq(losses[0], SReal(-T.cdens(tr, merged))))
 
 
-@task("vi.wake", props=["C30"], functions=FUNCS)
+@task("vi.wake", props=["C30", "C04"], functions=FUNCS)
 def t_wake(E):
     z3, T = E.z3, E.I.T
     theta = E.real("theta")             # the loss function's own parameter (what ADEV differentiates with respect to)
@@ -100,17 +135,30 @@ def t_wake(E):
     post = E.opaque("posterior_approx", "SampleDistribution")
     prop = E.opaque("proposal", "SampleDistribution")
     k = key(E)
-    split = E.ctx.fn("split", U, z3.IntSort(), z3.IntSort(), U)
-    s1, s2 = split(k.t, 3, 1), split(k.t, 3, 2)
+    from pyvc.interp_ops import zreal as _zr
+    from theory import keys as KY
     target = E.new(SP + ":Target", p=g, args=(theta,), constraint=obs)
     tu = E.I.to_u(target)
-    sample = qc(post.t, s1, tu)
     E.I.call(E.call(VI + ":PWake", post, make_target), [k, (theta_outer,)], {})
+    E.require("C30.PWake.loss_recorded", len(losses) == 1)
+    # keys read off the loss term: the posterior approximation's draw and the model's importance run
+    t0 = z3.simplify(_zr(losses[0]))
+    d0, g0 = _apps(t0, "q_random_weighted_choice"), _apps(t0, "gf_generate_tr")
+    E.require("C30.PWake.loss_is_built_from_one_posterior_draw_and_one_model_trace", len(d0) == 1 and len(g0) == 1)
+    s1, s2 = d0[0].arg(1), g0[0].arg(1)
+    E.prove("C04.PWake.posterior_draw_and_model_run_use_independent_keys_derived_from_the_given_key", z3.And(
+        KY.independent(E.I, s1, s2), KY.derived_from(E.I, s1, k.t), KY.derived_from(E.I, s2, k.t)), also=["C30"])
+    sample = qc(post.t, s1, tu)
     tr = T.gen_tr(g.t, s2, T.chm_or(obs.t, sample), E.I.to_u((theta,)))
     E.prove("C30.PWake.loss_is_minus_model_score_at_a_posterior_sample", E.eq(losses[0], SReal(-T.tr_score(tr))))
     E.I.call(E.call(VI + ":QWake", prop, post, make_target), [k, (theta_outer,)], {})
+    E.require("C30.QWake.loss_recorded", len(losses) == 2)
+    t1 = z3.simplify(_zr(losses[1]))
+    d1, e1 = _apps(t1, "q_random_weighted_choice"), _apps(t1, "q_estimate_logpdf")
+    E.require("C30.QWake.loss_is_built_from_one_posterior_draw_and_one_proposal_density", len(d1) == 1 and len(e1) == 1)
+    sample1 = qc(post.t, d1[0].arg(1), tu)
     E.prove("C30.QWake.loss_is_minus_proposal_log_density_of_a_posterior_sample",
-            E.eq(losses[1], SReal(-ql(prop.t, s2, sample, tu))))
+            E.eq(losses[1], SReal(-ql(prop.t, e1[0].arg(1), sample1, tu))))
     E.refutable("vi.wake", E.eq(losses[0], losses[1]))
 
 
@@ -126,24 +174,26 @@ def t_iwelbo(E):
     E.assume(N.t >= 1)
     k = key(E)
     E.I.call(E.call(VI + ":IWELBO", prop, make_target, N), [k, (theta_outer,)], {})
-    split = E.ctx.fn("split", U, z3.IntSort(), z3.IntSort(), U)
-    k_ct = split(k.t, 2, 1)
-    sub = lambda i: split(split(k_ct, 2, 1), N.t, i)
     target = E.new(SP + ":Target", p=g, args=(theta,), constraint=obs)
     tu = E.I.to_u(target)
     args_t = E.I.to_u((theta,))
+    lse_terms = getattr(E.ctx, "lse", [])
+    E.require("C30.IWELBO.one_logsumexp", len(lse_terms) == 1)
+    # the per-particle keys are read off particle i's re-targeted weight (symbolic i), however the algorithms derive them
+    from pyvc.interp_ops import zreal as _zr
+    i_any = E.ctx.const("i_any_particle", z3.IntSort())
+    ki, kq, kr = weight_keys(E, _zr(lse_terms[0][1].at(i_any)), "IWELBO")
+    at = lambda term, i: z3.substitute(term, (i_any, i))
 
     def w(i):
-        choice, lq = qc(prop.t, sub(i), tu), qw(prop.t, sub(i), tu)
+        choice, lq = qc(prop.t, at(kq, i), tu), qw(prop.t, at(kq, i), tu)
         merged = T.chm_or(obs.t, choice)
-        tr = T.gen_tr(g.t, sub(i), merged, args_t)
-        same_target_lemma(E, g, tr, obs, split(k_ct, N.t, i), args_t)
+        tr = T.gen_tr(g.t, at(ki, i), merged, args_t)
+        same_target_lemma(E, g, tr, obs, at(kr, i), args_t)
         return SReal(T.cdens(tr, merged) - lq)
     spec = Stacked(N.t, w, tag="iw")
     R = z3.RealSort()
     # the vector of reweighted log-weights equals the vector of importance weights (pointwise), hence so does its logsumexp
-    lse_terms = getattr(E.ctx, "lse", [])
-    E.prove("C30.IWELBO.one_logsumexp", len(lse_terms) == 1)
     if lse_terms:
         E.I.stacked_equal(lse_terms[0][1], spec)
     E.prove("C30.IWELBO.loss_is_minus_log_mean_exp_of_importance_weights", E.eq(losses[0], SReal(
